@@ -169,12 +169,28 @@ def constsValid : List Decl → Bool
   | .consts ss :: r => ss.all (fun s => s.typ.isNone || s.hasValues) && constsValid r
   | _ :: r => constsValid r
 
+/-- explicit type identifiers of const specs -/
+def constTypes : List Decl → List String
+  | [] => []
+  | .consts ss :: r => ss.filterMap (·.typ) ++ constTypes r
+  | _ :: r => constTypes r
+
+/-- every explicit const type is a package-level type of the package whose underlying type is basic
+    (constants of predeclared types such as `int` are outside the enum feature set) -/
+def constTypesOK (pkg : Pkg) : Bool :=
+  pkg.all (fun f => (constTypes f.decls).all (fun ty =>
+    match (declared pkg).find? (·.2.name == ty) with
+    | some (_, t) => t.under.isSome
+    | none => false))
+
 /-- the package is a valid Go package inside the documented feature set -/
 def validPkg (pkg : Pkg) : Bool :=
   (pkg.map File.name).Nodup && ((declared pkg).map (·.2.name)).Nodup
     && (((declared pkg).map (·.2.name)).map comp).Nodup     -- no two types collide after lower-casing
     && pkg.all (fun f => noLocals f.decls && constsValid f.decls && endsGo f.name)
     && noUniverse (allTSpecs pkg)
+    && constTypesOK pkg
+    && !((declared pkg).map (·.2.name)).contains ""          -- identifiers are not empty
 
 /-- every candidate of getGoFile is the declaring file -/
 def candsOK (pkg : Pkg) (n : String) : Bool :=
